@@ -11,6 +11,7 @@ package benchproc_test
 
 import (
 	"fmt"
+	"regexp"
 	"strconv"
 	"strings"
 	"testing"
@@ -26,6 +27,7 @@ type c04hCase struct {
 	Other   kit.B     // an unrelated unit
 	Name    int       // 0: filter names the written unit, 1: the base unit, 2: the other unit
 	Neg     bool      // -.unit:...
+	Re      bool      // the term is the regexp /^<name>$/ instead of the quoted literal
 	Results [][]uint8 // per result, per measurement: 0 = written spelling, 1 = base spelling, 2 = other unit
 }
 
@@ -48,7 +50,7 @@ func c04hGen(r *kit.Rand, i int) c04hCase {
 	if r.Chance(0.4) {
 		w = kit.Pick(r, []string{"ns/op", "MB/s", "ns/GC", "MB", "ns"})
 	}
-	c := c04hCase{Written: kit.B(w), Other: kit.B(kit.Pick(r, []string{"B/op", "allocs/op", "widgets", "sec/xop", "B/sx"})), Name: r.Intn(3), Neg: r.Chance(0.3)}
+	c := c04hCase{Written: kit.B(w), Other: kit.B(kit.Pick(r, []string{"B/op", "allocs/op", "widgets", "sec/xop", "B/sx"})), Name: r.Intn(3), Neg: r.Chance(0.3), Re: r.Chance(0.4)}
 	nres := r.Range(2, 8)
 	for j := 0; j < nres; j++ {
 		nm := r.Range(1, 4)
@@ -68,6 +70,11 @@ func c04hCheck(c c04hCase) *kit.Fail {
 	spell := []string{w, base, other}
 	name := spell[c.Name]
 	q := ".unit:" + strconv.Quote(name)
+	if c.Re {
+		// anchored regexp that matches exactly the named spelling; '/' is
+		// written as [/] so that it does not end the regexp token
+		q = ".unit:/^" + strings.ReplaceAll(regexp.QuoteMeta(name), "/", "[/]") + "$/"
+	}
 	if c.Neg {
 		q = "-" + q
 	}
